@@ -238,6 +238,67 @@ func clone(c *chain.Chain, msg sdk.Msg) sdk.Msg {
 	return out
 }
 
+// aliasSpellings of an identifier that a lenient lookup might fold onto the original.
+func aliasSpellings(id string) []string {
+	out := []string{strings.ToUpper(id), " " + id, id + " "}
+	if len(id) > 0 {
+		out = append(out, strings.ToUpper(id[:1])+id[1:])
+	}
+	var uniq []string
+	for _, a := range out {
+		if a != id {
+			uniq = append(uniq, a)
+		}
+	}
+	return uniq
+}
+
+// aliasVariants: clones of msg in which the identifier of B's existing thing is re-spelled.
+func aliasVariants(c *chain.Chain, msg sdk.Msg) []sdk.Msg {
+	var out []sdk.Msg
+	switch t := msg.(type) {
+	case *schedulertypes.MsgCreateJob:
+		if t.Job != nil {
+			for _, a := range aliasSpellings(t.Job.ID) {
+				cl := clone(c, msg).(*schedulertypes.MsgCreateJob)
+				cl.Job.ID = a
+				out = append(out, cl)
+			}
+		}
+	case *schedulertypes.MsgExecuteJob:
+		for _, a := range aliasSpellings(t.JobID) {
+			cl := clone(c, msg).(*schedulertypes.MsgExecuteJob)
+			cl.JobID = a
+			out = append(out, cl)
+		}
+	case *tftypes.MsgMint:
+		for _, a := range aliasSpellings(t.Amount.Denom) {
+			cl := clone(c, msg).(*tftypes.MsgMint)
+			cl.Amount.Denom = a
+			out = append(out, cl)
+		}
+	case *tftypes.MsgBurn:
+		for _, a := range aliasSpellings(t.Amount.Denom) {
+			cl := clone(c, msg).(*tftypes.MsgBurn)
+			cl.Amount.Denom = a
+			out = append(out, cl)
+		}
+	case *tftypes.MsgChangeAdmin:
+		for _, a := range aliasSpellings(t.Denom) {
+			cl := clone(c, msg).(*tftypes.MsgChangeAdmin)
+			cl.Denom = a
+			out = append(out, cl)
+		}
+	case *skywaytypes.MsgSetERC20ToTokenDenom:
+		for _, a := range aliasSpellings(t.Denom) {
+			cl := clone(c, msg).(*skywaytypes.MsgSetERC20ToTokenDenom)
+			cl.Denom = a
+			out = append(out, cl)
+		}
+	}
+	return out
+}
+
 type attack struct {
 	name   string
 	signer *chain.Account
@@ -279,6 +340,14 @@ func (m *mon) attacks(tp template, url string) []attack {
 				ex = "batch confirmation carrying B's own external signature over the exact checkpoint"
 			}
 			out = append(out, attack{name: "creator-swapped-by-" + who, signer: X, msg: a2, exempt: ex})
+		}
+		// A's OWN well-formed message that names one of B's things under an alias spelling (other letter case,
+		// surrounding blanks): identifiers that are normalised on one path and compared raw on another let A
+		// overwrite or use what B owns without ever forging a creator.
+		for i, al := range aliasVariants(c, tp.msg) {
+			if setMeta(al, X.Bech, X.Bech) {
+				out = append(out, attack{name: fmt.Sprintf("creator-swapped-alias-id-%d-by-%s", i, who), signer: X, msg: al})
+			}
 		}
 		if tp.kind == "gov" {
 			a3 := clone(c, tp.msg)
